@@ -31,7 +31,7 @@ def trace_save(bindir, dic, wd):
     tr = os.path.join(wd, "strace.txt")
     port = S.free_port()
     env = dict(os.environ, TOKIO_WORKER_THREADS="4")
-    p = subprocess.Popen(["strace", "-f", "-y", "-o", tr, "-e", "trace=openat,open,creat,write,rename,renameat,renameat2,fsync,fdatasync,ftruncate,unlink,mkdir",
+    p = subprocess.Popen(["strace", "-f", "-y", "-o", tr, "-e", "trace=openat,open,creat,write,rename,renameat,renameat2,fsync,fdatasync,ftruncate,unlink,unlinkat,mkdir",
                           os.path.join(bindir, "chokan-server"), "-p", str(port), "-d", dic, "-u", ud, "-s", "1"],
                          stdout=subprocess.DEVNULL, stderr=subprocess.DEVNULL, env=env)
     try:
@@ -70,6 +70,10 @@ def trace_save(bindir, dic, wd):
         if m:
             ops.append(("rename", os.path.basename(m.group(1)), os.path.basename(m.group(2))))
             continue
+        m = re.search(r'unlink(?:at)?\(.*?"([^"]*user-trace[^"]*)"', line)
+        if m and " = 0" in line:
+            ops.append(("unlink", os.path.basename(m.group(1))))
+            continue
         if re.search(r'mkdir\("[^"]*user-trace', line):
             ops.append(("mkdir",))
     # split into saves (a save ends with the rename onto user.dic, or — without renames — with the last write to user.dic);
@@ -104,6 +108,8 @@ def abstract(ops):
             res.append(".sync")
         elif o[0] == "rename":
             res.append(".rename")
+        elif o[0] == "unlink":
+            res.append(".unlink")
     return res
 
 
@@ -153,6 +159,11 @@ def apply(d, o, content_for, cut):
             f.write(data if cut is None else data[:cut])
     elif o[0] == "rename":
         os.replace(os.path.join(d, o[1]), os.path.join(d, o[2]))
+    elif o[0] == "unlink":
+        try:
+            os.remove(os.path.join(d, o[1]))
+        except FileNotFoundError:
+            pass
 
 
 def run(run, replay=None):
